@@ -8,6 +8,7 @@ Open Scope N_scope.
 Section AddBlock.
 Variable apply : sroot -> block -> option sroot.
 Variable orphan_cap : nat.
+Variable f27 : bool.
 Variable spent : sroot -> txid -> bool.
 Hypothesis apply_fresh : forall r b r', apply r b = Some r' ->
   NoDup (txs b) /\ forall t, In t (txs b) -> spent r t = false.
@@ -58,31 +59,32 @@ Proof.
     + intros id x. rewrite Ff by (intros; discriminate). apply (i_univ _ _ _ _ _ I).
 Qed.
 
-Lemma is_main_chain_true n b : Inv n -> is_main_chain n b = Some true -> no b <> 0 ->
+Lemma is_main_chain_true n b : Inv n -> is_main_chain f27 n b = Some true -> (f27 = true \/ no b <> 0) ->
   prev b = hash_field (best n) /\ no b = no (best n) + 1.
 Proof.
   intros I H Hn0. unfold is_main_chain in H.
   rewrite (best_hash _ _ _ _ _ I) in H.
-  destruct ((0 <? no b) && negb (no b =? no (best n) + 1)) eqn:E; [discriminate|].
+  destruct ((f27 || (0 <? no b)) && negb (no b =? no (best n) + 1)) eqn:E; [discriminate|].
   inversion H as [H1]. apply N.eqb_eq in H1. split; auto.
   apply andb_false_iff in E. destruct E as [E|E].
-  - apply N.ltb_ge in E. lia.
+  - apply orb_false_iff in E. destruct E as (E1 & E2). apply N.ltb_ge in E2.
+    destruct Hn0 as [Hf|Hn0]; [congruence|lia].
   - apply negb_false_iff in E. apply N.eqb_eq in E. auto.
 Qed.
 
 (** addBlock keeps the invariant for EVERY block of the universe (valid or not, duplicate,
     orphan, side branch, triggering a reorganisation or not) that does not carry number 0. *)
 Theorem add_block_inv n b :
-  Inv n -> U b -> no b <> 0 ->
-  Inv (fst (add_block apply true orphan_cap n b)).
+  Inv n -> U b -> (f27 = true \/ no b <> 0) ->
+  Inv (fst (add_block apply true f27 orphan_cap n b)).
 Proof.
   intros I Ub Hn0. unfold add_block.
   destruct (mem (hash_field b) (bad n)); [exact I|].
   destruct (get_block (dur n) (hash_field b)); [exact I|].
-  assert (Hint : Inv (fst (fst (add_block_internal apply true orphan_cap n b)))).
+  assert (Hint : Inv (fst (fst (add_block_internal apply true f27 orphan_cap n b)))).
   { unfold add_block_internal.
     destruct (get_block (dur n) (prev b)) as [p|] eqn:Ep.
-    - destruct (is_main_chain n b) as [main|] eqn:Em; [|exact I].
+    - destruct (is_main_chain f27 n b) as [main|] eqn:Em; [|exact I].
       destruct (run_chain apply (S (length (orphans n))) main n b b) as [[n1 ok] last] eqn:RC.
       assert (Hm : main = true -> prev b = hash_field (best n) /\ no b = no (best n) + 1).
       { intros ->. apply is_main_chain_true; auto. }
@@ -98,13 +100,13 @@ Proof.
     - simpl. apply inv_tell. apply inv_set_orphans; auto.
       intros o Ho. apply (add_orphan_In orphan_cap) in Ho. destruct Ho as [Ho| ->]; auto.
       apply (i_orph _ _ _ _ _ I). auto. }
-  destruct (add_block_internal apply true orphan_cap n b) as [[n1 r] c].
+  destruct (add_block_internal apply true f27 orphan_cap n b) as [[n1 r] c].
   simpl in Hint. destruct r; simpl; auto. destruct c; simpl; auto. apply inv_set_bad. auto.
 Qed.
 
 Theorem history_inv (l : list (N * block)) : forall n,
-  Inv n -> (forall x, In x l -> U (snd x) /\ no (snd x) <> 0) ->
-  Inv (history apply true orphan_cap n l).
+  Inv n -> (forall x, In x l -> U (snd x) /\ (f27 = true \/ no (snd x) <> 0)) ->
+  Inv (history apply true f27 orphan_cap n l).
 Proof.
   induction l as [|x l IH]; intros n I H; simpl; auto.
   apply IH.
